@@ -353,7 +353,7 @@ def gate_cases(ctx, rng):
             return v
         text = '|'.join((f'c:{idx_str(c)}:{idx_str(t)}:{enc_z(U)}' if c else f'u:{idx_str(t)}:{enc_z(U)}') for U, c, t in links)
         cases.append(Case(f'C03 circ Z {n} {text} {enc_z(psi)}', chain, chain_oracle, key='chained-calls', ntkey=('chain', n, len(links), len(cases)),
-                          replay=dict(fn='chained apply_gate/apply_control_n_gate', n=n, psi=repr(psi.tolist()),
+                          replay=dict(fn='chained apply_gate/apply_control_n_gate', n=n, psi=repr(psi.tolist()), state_dtype=sdt,
                                       links=repr([(U.tolist(), list(c), list(t)) for U, c, t in links]))))
     ctx.extra['exhaustive'] = True
     ctx.extra['exhaustive_domain'] = f'every ordered target tuple of size 1..3 and every control subset (incl. none) for n = 1..{nmax}'
@@ -2097,6 +2097,19 @@ def _arr(s):
     return np.array(eval(s, {'__builtins__': {}}, {}), dtype=np.complex128)
 
 
+def _recorded_form(r, psi, U):
+    """the arrays as the recording run handed them over: `argument_form` (layout / dtype variants of arg_form) or `state_dtype`
+    (a real / integer dtype state); the values are unchanged, so the oracle is evaluated on (psi, U) themselves"""
+    form = r.get('argument_form')
+    if form in FORMS:
+        _, _, _, psi_a, U_a = arg_form(None, psi, U, force=form)
+        return psi_a, U_a
+    sd = r.get('state_dtype')
+    if sd and sd != 'complex128':
+        return psi.real.astype(np.dtype(sd)), U
+    return psi, U
+
+
 def _steps_from_desc(desc):
     """inverse of `describe`"""
     out = []
@@ -2165,10 +2178,29 @@ def replay(ctx, payload):
         want = (oracle_ctrl(U, c, t, n) if c else oracle_embed(U, t, n)) @ psi
     elif fn == 'apply_gate':
         n, t = r['n'], tuple(r['target']); U, psi = _arr(r['op']), _arr(r['psi'])
-        got = guarded(lambda: st.apply_gate(psi, U, t)); want = oracle_embed(U, t, n) @ psi
+        psi_a, U_a = _recorded_form(r, psi, U)
+        got = guarded(lambda: st.apply_gate(psi_a, U_a, t)); want = oracle_embed(U, t, n) @ psi
     elif fn == 'apply_control_n_gate':
         n, t, c = r['n'], tuple(r['target']), tuple(r['control']); U, psi = _arr(r['op']), _arr(r['psi'])
-        got = guarded(lambda: st.apply_control_n_gate(psi, U, set(c), t)); want = oracle_ctrl(U, c, t, n) @ psi
+        psi_a, U_a = _recorded_form(r, psi, U)
+        got = guarded(lambda: st.apply_control_n_gate(psi_a, U_a, set(c), t)); want = oracle_ctrl(U, c, t, n) @ psi
+    elif fn == 'chained apply_gate/apply_control_n_gate':
+        # the array returned by one call is the input of the next; every intermediate result must keep its value
+        n, psi = r['n'], _arr(r['psi'])
+        links = [(np.array(U, dtype=np.complex128), tuple(c), tuple(t)) for U, c, t in eval(r['links'], {'__builtins__': {}}, {})]
+        psi_a, _ = _recorded_form(r, psi, np.eye(2))
+        def chain():
+            cur, hist = psi_a, []
+            for U, c, t in links:
+                nxt = st.apply_control_n_gate(cur, U, set(c), t) if c else st.apply_gate(cur, U, t)
+                hist.append((cur, cur.copy())); cur = nxt
+            if any(not np.array_equal(a, a0) for a, a0 in hist):
+                return 'error: an earlier result was modified when it was used as the input of the next call'
+            return cur
+        got = guarded(chain)
+        want = psi
+        for U, c, t in links:
+            want = (oracle_ctrl(U, c, t, n) if c else oracle_embed(U, t, n)) @ want
     elif fn in ('dm.apply_gate', 'dm.operator_expectation'):
         n = r['n']; idx = eval(r['index'], {'__builtins__': {}}, {}); U, rho = _arr(r['op']), _arr(r['rho'])
         t = (idx,) if isinstance(idx, int) else tuple(idx)
@@ -2226,7 +2258,8 @@ def replay(ctx, payload):
             return 0 if ok else 1
         if fn == 'Circuit.apply_state':
             n, psi = r['n'], _arr(r['psi'])
-            got = guarded(lambda: build_circuit(steps).apply_state(psi)); want = oracle_program_matrix(sem, n) @ psi
+            psi_a, _ = _recorded_form(r, psi, np.eye(2))
+            got = guarded(lambda: build_circuit(steps).apply_state(psi_a)); want = oracle_program_matrix(sem, n) @ psi
         else:
             w = program_width(sem)
             got = guarded(lambda: build_circuit(steps).to_unitary().reshape(-1)); want = oracle_program_matrix(sem, w).reshape(-1)
